@@ -167,6 +167,7 @@ class Family(object):
     timeout = 10.0       # watchdog per case (seconds); a time-out is reported as a violation
     timeout_sig = 'timeout'
     max_timeouts = 3
+    recheck_every = 97
     kind = 'ENUM'
 
     def cases(self, tier):
@@ -203,6 +204,13 @@ class Family(object):
             if res.outcome == 'TIMEOUT':
                 timeouts += 1
             st.add(case, res)
+            if self.recheck_every and st.evaluations % self.recheck_every == 0 and res.outcome != 'TIMEOUT':
+                # determinism obligation: about 1% of all cases are executed twice and must be observed identically
+                again = self._guarded(case)
+                st.extra['rechecked'] = st.extra.get('rechecked', 0) + 1
+                if (again.outcome, again.violation is None) != (res.outcome, res.violation is None):
+                    raise HarnessError('family %s case %r is not deterministic: first %r, then %r'
+                                       % (self.name, case, res.outcome, again.outcome))
             if res.violation is not None and st.violations and st.violations[-1].get('case') == jsonable(case):
                 st.violations[-1]['decoded'] = jsonable(self.describe(case))
             if len(st.samples) < 2 and (res.nontrivial or st.evaluations > 50):
